@@ -580,7 +580,7 @@ def run(ctx):
     for name, src, mode, verdict, detail in kw:
         kwtot[verdict] = kwtot.get(verdict, 0) + 1
         if verdict == "WRONG":
-            rep.violations.append(violation(PROP, "keywords", src.split("(")[0].replace("np.", ""), mode, "silently-wrong-with-option", dict(case=name, call=src),
+            rep.violations.append(violation(PROP, "keywords", src.split("(")[0].replace("np.", ""), mode, "silently-wrong-with-option", dict(case=name, call=src, case_id=name.replace(" ", "_")),
                                             dict(keyword_case=src, mode=mode), dict(call=src), detail[:300], "an exception, or the derivative of NumPy's result with this option",
                                             "import autograd, autograd.numpy as np, numpy as onp  # f = lambda x: %s" % src))
     nopt += len(kw)
